@@ -740,6 +740,32 @@ def r38(text):
     return text, n
 
 
+@rule("R42", "Definition of Option::is_some_and / is_none_or with a closure: `X.is_some_and(|p| C)` -> `(match X { Some(p) => C, None => false })`, "
+             "`X.is_none_or(|p| C)` -> `(match X { Some(p) => C, None => true })`.")
+def r42(text):
+    n = 0
+    while True:
+        m = re.search(r"\.\s*(is_some_and|is_none_or)\(", text)
+        if not m:
+            break
+        o = m.end() - 1
+        toks = tokenize(text[o:])
+        c = o + toks[match_close(toks, 0)].start
+        inner = text[o + 1:c]
+        mm = re.match(r"\s*\|\s*(&?\s*\w+)\s*\|\s*(.*)$", inner, re.S)
+        if not mm:
+            text = text[:m.start()] + "." + m.group(1) + "_\x00(" + text[m.end():]
+            continue
+        rs = _receiver_start(text, m.start())
+        recv = text[rs:m.start()].rstrip()
+        rep = "(match %s { Some(%s) => %s, None => %s })" % (recv, mm.group(1).strip(), mm.group(2).strip(), "false" if m.group(1) == "is_some_and" else "true")
+        old = text[rs:c + 1]
+        rep = rep + "\n" * max(0, old.count("\n") - rep.count("\n"))
+        text = text[:rs] + rep + text[c + 1:]
+        n += 1
+    return text.replace("_\x00(", "("), n
+
+
 @rule("R39", "Definition of Option::map_or with a closure: `X.map_or(D, |p| E)` -> `match X { Some(p) => E, None => D }`.")
 def r39(text):
     n = 0
